@@ -4,7 +4,30 @@ from . import core, legacy_common as L
 PROP = "C08"
 DRIVER = "drv_legacy"
 LEAN_MODULES = ["MesaModel.Props.C08", "MesaModel.Props.C18Legacy"]
-THEOREMS = []
+THEOREMS = [
+    "Mesa.Legacy.C08_views_agree_all_histories",
+    "Mesa.Legacy.C08_step_keeps_agreement",
+    "Mesa.Legacy.C08_pos_is_the_one_cell",
+    "Mesa.Legacy.C08_single_cell_at_most_one",
+    "Mesa.Legacy.C08_empties_exact_built_or_not",
+    "Mesa.Legacy.C08_emptiness_views",
+    "Mesa.Legacy.C08_agents_view",
+    "Mesa.Legacy.C08_getitem_wraps_or_rejects",
+    "Mesa.Legacy.C08_move_wraps_or_rejects",
+    "Mesa.Legacy.C08_move_single_rejects_occupied",
+    "Mesa.Legacy.C08_moveToEmpty_lands_on_empty",
+    "Mesa.Legacy.C08_moveToEmpty_full_grid",
+    "Mesa.Legacy.C08_moveToOneOf_lands_on_offered",
+    "Mesa.Legacy.C08_closest_minimises_distance",
+    "Mesa.Legacy.C08_distance_is_torus_metric",
+    "Mesa.Legacy.C18_legacy_move_reject_unchanged",
+    "Mesa.Legacy.C18_legacy_place_reject_unchanged",
+    "Mesa.Legacy.C18_legacy_remove_reject_unchanged",
+    "Mesa.Legacy.C18_legacy_swap_reject_unchanged",
+    "Mesa.Legacy.C18_legacy_moveToOneOf_reject_unchanged",
+    "Mesa.Legacy.C18_legacy_moveToEmpty_reject_unchanged",
+    "Mesa.Legacy.C18_legacy_step_reject_unchanged",
+]
 COUNTS = {"quick": 1600, "thorough": 24000}
 TRUSTED = [
     "CPython list/set/dict semantics (a cell is a list of agent ids, `_empties` a set kept as a sorted list, `agent.pos` a map)",
